@@ -10,9 +10,6 @@ assignment vs `with_`, `update` vs repeated `with_`, keywords vs constructor,
 `del` vs `reset_`).
 """
 import copy
-import json
-import os
-from pathlib import Path
 
 import sc_values as V
 from sc_values import attr_name, decode, show
@@ -56,52 +53,33 @@ ASSUMPTIONS = [
 ]
 OPEN_STATEMENTS = [
     "MissingNoopFull (MISSING/EMPTY make every scalar helper a no-op returning the receiver) is refuted by "
-    "missing_constructs_witness: the code default-constructs the annotation (KF-C05-missing-constructs)",
+    "missing_constructs_witness: the code default-constructs the annotation (open finding KF-C05-missing-constructs)",
 ]
 EXHAUSTIVE = {"quick": False, "thorough": False}
 
-KNOWN_FILE = Path(__file__).resolve().parent.parent / "known_findings.json"
-FINDING_TAGS = [
-    "KF-C05-missing-constructs",
-    "KF-C05-unchanged-wipes-collection",
-    "KF-C05-sentinel-returns-copy",
-]
-PENDING = {}
+FINDING_TAG = "KF-C05-missing-constructs"
 
 
 def setup():
     V.init()
-    PENDING.clear()
-
-
-def _registered():
-    """matcher names of the open C05 findings registered in known_findings.json (read only)"""
-    try:
-        data = json.loads(KNOWN_FILE.read_text())
-    except Exception:
-        return set()
-    return {
-        e.get("matcher")
-        for e in data.get("findings", [])
-        if e.get("property") == PID and e.get("status") == "open"
-    } | set(filter(None, os.environ.get("VERIF_C05_ASSUME_REGISTERED", "").split(",")))
 
 
 def _tag_of(v):
     if v.startswith("[") and "]" in v:
-        return v[1 : v.index("]")]
+        return v[1: v.index("]")]
     return None
 
 
-def _matcher(tag):
-    def fn(case, violation):
-        vs = [v for v in violation if v != "correspondence"]
-        return bool(vs) and all(_tag_of(v) == tag or (_tag_of(v) in FINDING_TAGS and _tag_of(v) in _registered()) for v in vs)
+def _missing_constructs(case, violation):
+    """Matcher of the open finding KF-C05-missing-constructs (D16): every complaint of the oracle about the case is
+    about a scalar helper / assignment handed MISSING or EMPTY (or no argument), a transform answering MISSING / EMPTY,
+    a transform of an unset attribute, or an EMPTY keyword: the code default-constructs the annotation (or re-runs the
+    assignment pipeline on the old value) instead of doing nothing."""
+    vs = [v for v in violation if v != "correspondence"]
+    return bool(vs) and all(_tag_of(v) == FINDING_TAG for v in vs)
 
-    return fn
 
-
-KNOWN_MATCHERS = {t: _matcher(t) for t in FINDING_TAGS}
+KNOWN_MATCHERS = {FINDING_TAG: _missing_constructs}
 
 # ---------------------------------------------------------------------------
 # class families
@@ -1069,7 +1047,9 @@ def doc_apply(fam, classes, pre, op):
     if k == "upd":
         v = dec(op["v"])
         kw = [(n, dec(x)) for n, x in op["kw"]]
-        if is_sentinel(v) and (not kw or v is V.S("UNCHANGED")):
+        if v is V.S("UNCHANGED") and kw:
+            raise Undoc("UNCHANGED together with keywords")
+        if is_sentinel(v) and not kw:
             sent.append("value-sentinel")
             return noop
         if is_sentinel(v):
@@ -1181,19 +1161,18 @@ def doc_apply(fam, classes, pre, op):
     raise ValueError(op)
 
 
-def classify_sentinel(op, real_desc):
-    """which finding a deviation on a sentinel call belongs to"""
-    k = op["k"]
-    v = op.get("v")
-    if k in ("with", "set", "UPD") and v == "U":
-        return "KF-C05-unchanged-wipes-collection"
-    if k == "tra" and op.get("f") == "cst U":
-        return "KF-C05-unchanged-wipes-collection"
-    if k == "upd" and v in ("U",):
-        return "KF-C05-sentinel-returns-copy"
-    if k == "upd" and v in ("M", "E") and "present" in real_desc:
-        return "KF-C05-sentinel-returns-copy"
-    return "KF-C05-missing-constructs"
+def classify_sentinel(op, sent):
+    """A deviation on a sentinel call belongs to the open finding when MISSING / EMPTY is involved; UNCHANGED
+    must be a no-op (repaired in /repo 18d1613), so a deviation there is a new violation."""
+    if "transform-of-unset" in sent:
+        return FINDING_TAG      # the unset attribute is default-constructed (or cannot be) before the transform runs
+    if op.get("v") == "U" or op.get("f") == "cst U":
+        return None
+    if sent == ["kw-sentinel"]:
+        vals = [v for _, v in op.get("kw", [])] + [(t or "") for _, t in op.get("kt", [])]
+        if not any(v == "E" or v == "cst E" for v in vals):
+            return None
+    return FINDING_TAG
 
 
 def run_real(classes, fam, pre, op, inplace=None):
@@ -1271,15 +1250,9 @@ def oracle(case):
     fam = case["family"]
     classes = V.build_family(fam)
     viol = []
-    registered = _registered()
 
     def report(tag, msg):
-        if tag is None:
-            viol.append(msg)
-        elif tag in registered:
-            viol.append(f"[{tag}] {msg}")
-        else:
-            PENDING[tag] = PENDING.get(tag, 0) + 1
+        viol.append(msg if tag is None else f"[{tag}] {msg}")
 
     # construction
     try:
@@ -1318,13 +1291,7 @@ def oracle(case):
         label = f"op#{n} {op_line(op)} from {pre_s}"
         if exp[0] in ("ok", "ok-or-attributeerror"):
             _, erecv, eret, eres, sent = exp
-            tag = None
-            if sent:
-                present = "present" if (op.get("a") in pre.f) else "unset"
-                tag = classify_sentinel(op, present)
-                if sent == ["kw-sentinel"]:
-                    tag = "KF-C05-unchanged-wipes-collection" if "U" in [v for _, v in op.get("kw", [])] or any(
-                        (t or "").startswith("cst U") for _, t in op.get("kt", [])) else "KF-C05-missing-constructs"
+            tag = classify_sentinel(op, sent) if sent else None
             if err is not None:
                 if not (exp[0] == "ok-or-attributeerror" and err == "AttributeError"):
                     report(tag, f"{label}: raised {err}; the documentation gives {pshow(eres)}")
@@ -1403,13 +1370,8 @@ def shrink(case, at=None):
         yield {**case, "init": []}
 
 
-def extra(tier, rng):
-    return {"evaluations": 0, "info": {"pending_findings_not_registered_yet": dict(PENDING),
-                                        "registered_findings": sorted(x for x in _registered() if x)}}
-
-
 MANIFEST_ENTRY = {
     "level_text": "Lean 4 proof that the Impl model of the scalar and top-level helpers (mutate_value's eight steps, prepare_attr_value, mutate_attr, the generated __init__/__setattr__/__delattr__, with_/update_/transform_/reset_<attr>, update/transform/reset, for any class table, any pure preparers/transforms, any fuel) refines a direct transcription of the documentation (Spec.Doc.apply), that the in-place run leaves on the receiver exactly the state the copy run returns and returns the receiver, that obj.a = v is with_a(v, _inplace=True), update(**kw) is the fold of with_<a>, with_a(**kw) stores the freshly constructed nested instance, del is reset_<a>(_inplace=True), and that _if=False and UNCHANGED are no-ops returning the receiver; MISSING is a no-op only under the negation of the finding's matcher (missing_noop_partial) and a decided witness refutes the full statement. The model is tied to /repo on every run by executing the same call histories (every helper x call form x _inplace x _if, from reachable states, over hand-written and random class families) on the real classes and on the model and comparing returned object, exception class and receiver state after every call; an independent interpreter of the documentation over plain containers and relational checks on the real code judge every case.",
-    "level_note": "Trusted: Lean kernel; axioms propext/Classical.choice/Quot.sound only; the hand-written value-level model (no object identities beyond 'the receiver itself is returned'), the class-family builder and the correspondence harness. Preparers/transforms pure and total. transform_/update_ store through the assignment pipeline (preparer re-applied). Known finding: MISSING/EMPTY default-construct the annotation instead of being a no-op.",
+    "level_note": "Trusted: Lean kernel; axioms propext/Classical.choice/Quot.sound only; the hand-written value-level model (no object identities beyond 'the receiver itself is returned'), the class-family builder and the correspondence harness. Preparers/transforms pure and total. transform_/update_ store through the assignment pipeline (preparer re-applied). Open finding KF-C05-missing-constructs: MISSING/EMPTY default-construct the annotation instead of being a no-op.",
     "technique": "Lean 4 refinement + algebraic-law proofs over a hand-written model; differential correspondence against the real helpers; documentation interpreter as independent oracle",
 }
